@@ -133,7 +133,7 @@ func NewSolver(bin string, timeoutMs int) (*Solver, error) {
 func newSolverMode(bin string, timeoutMs int, incremental bool) (*Solver, error) {
 	args := []string{"-in", fmt.Sprintf("-t:%d", timeoutMs)}
 	if strings.Contains(bin, "cvc5") {
-		args = []string{"--incremental", "--produce-models", "--lang=smt2"}
+		args = []string{"--incremental", "--produce-models", "--lang=smt2", fmt.Sprintf("--tlimit-per=%d", timeoutMs)}
 	}
 	cmd := exec.Command(bin, args...)
 	in, err := cmd.StdinPipe()
@@ -211,6 +211,9 @@ func (s *Solver) Check(conj []*Term) Result {
 	var sb strings.Builder
 	if !s.incremental {
 		sb.WriteString("(reset)\n(set-option :produce-models true)\n")
+		if strings.Contains(s.bin, "cvc5") {
+			sb.WriteString("(set-logic ALL)\n")
+		}
 	}
 	sb.WriteString(s.pr.Flush())
 	if s.incremental {
@@ -286,7 +289,7 @@ func (s *Solver) Values(vars []*Term) map[string]*big.Int {
 		if !s.pr.defined[v.id] {
 			continue
 		}
-		s.send(fmt.Sprintf("(get-value (|%s|))\n", v.name))
+		s.send(fmt.Sprintf("(get-value (%s))\n", symName(v.name)))
 		txt := s.readSexp()
 		// ((|name| #x..)) or true/false or (_ bv..)
 		idx := strings.LastIndex(txt, "|")
